@@ -17,17 +17,19 @@ EXTENDS TraceLib, FlowGraphP
 C0 == TraceLog[1]
 VARIABLES now, lo, hi, charged, admitted, fwlast, inflight, deadline, cqlast,
           rmode, rA, rAF, rranges, rB, rcnt, rlast,
+          cnow, cands, held, open, cum, clast,
           l, cur, pos, seen
 
 TxIds == {TraceLog[i].id : i \in {j \in 2..TraceLen : TraceLog[j].ev = "tx"}}
 SqIds == {TraceLog[i].sq : i \in {j \in 2..TraceLen : TraceLog[j].ev = "tx"}}
 
-G == INSTANCE GatewayP WITH TxIds <- TxIds, SqIds <- SqIds, StRange <- C0.StRange, RetryA <- C0.RetryA, Cfg <- C0.cfg, QIds <- DOMAIN C0.QKind, QKind <- C0.QKind, QMax <- C0.QMax, QW <- C0.QW,
+G == INSTANCE GatewayP WITH TxIds <- TxIds, SqIds <- SqIds, StRange <- C0.StRange, RetryA <- C0.RetryA, RCache <- C0.RCache, WCache <- C0.WCache, CacheTtl <- C0.CacheTtl, Cfg <- C0.cfg, QIds <- DOMAIN C0.QKind, QKind <- C0.QKind, QMax <- C0.QMax, QW <- C0.QW,
                             LimQ <- C0.LimQ, GenStatus <- C0.GenStatus, SetH <- C0.SetH
 
-gvars == <<now, lo, hi, charged, admitted, fwlast, inflight, deadline, cqlast, rmode, rA, rAF, rranges, rB, rcnt, rlast, l, cur, pos, seen>>
+gvars == <<now, lo, hi, charged, admitted, fwlast, inflight, deadline, cqlast, rmode, rA, rAF, rranges, rB, rcnt, rlast, cnow, cands, held, open, cum, clast, l, cur, pos, seen>>
 qstate == <<lo, hi, charged, admitted, fwlast, inflight, deadline, cqlast>>
 rvars == <<rmode, rA, rAF, rranges, rB, rcnt, rlast>>
+cvars == <<cnow, cands, held, open, cum, clast>>
 
 Ev == TraceLog[l + 1]
 Idle == pos = 0
@@ -40,7 +42,7 @@ TInit ==
     /\ charged = [q \in G!Fixed |-> [g \in G!Groups |-> 0]] /\ admitted = [q \in G!Fixed |-> [g \in G!Groups |-> 0]]
     /\ fwlast = [ev |-> "init"]
     /\ inflight = [q \in G!Conc |-> {}] /\ deadline = [q \in G!Conc |-> [t \in TxIds |-> 0]] /\ cqlast = [ev |-> "init"]
-    /\ G!RetryInit
+    /\ G!RetryInit /\ G!CacheInit
     /\ l = 1 /\ cur = NoTx /\ pos = 0 /\ seen = {}
 
 TReset ==
@@ -50,24 +52,34 @@ TReset ==
     /\ charged' = [q \in G!Fixed |-> [g \in G!Groups |-> 0]] /\ admitted' = [q \in G!Fixed |-> [g \in G!Groups |-> 0]]
     /\ fwlast' = [ev |-> "reset"]
     /\ inflight' = [q \in G!Conc |-> {}] /\ deadline' = [q \in G!Conc |-> [t \in TxIds |-> 0]] /\ cqlast' = [ev |-> "reset"]
-    /\ G!RetryReset
+    /\ G!RetryReset /\ G!CacheReset
     /\ UNCHANGED <<cur, pos, seen>>
 
-TAdv == Consume("adv") /\ now' = now + Ev.d /\ G!RetryAdv /\ UNCHANGED <<qstate, cur, pos, seen>>
+TAdv == Consume("adv") /\ now' = now + Ev.d /\ G!RetryAdv /\ G!CacheAdv(Ev.d) /\ UNCHANGED <<qstate, cur, pos, seen>>
 
 \* the walk of one user flow within a request transaction (C04).  The flow that answered the request is judged with
 \* the resume rule; another selected flow runs its request side completely or - when an earlier flow answered - not at
 \* all, and its response side as an ordinary response walk when the answer is processed.
 FlowWalk(e, f) ==
-    LET mine == SelectSeq(e.seq, LAMBDA x : x.sid = "" /\ x.flow = f)
+    LET cfg == G!CfgFor(e.seq)          \* a ReadCache that answered this transaction is read as an answering processor
+        mine == SelectSeq(e.seq, LAMBDA x : x.sid = "" /\ x.flow = f)
         rq == SelectSeq(mine, LAMBDA x : x.dir = "req")
         rs == SelectSeq(mine, LAMBDA x : x.dir = "res")
-        answered == \E i \in 1..Len(rq) : KindAny(C0.cfg, rq[i].key) = "Gen"
-    IN IF ~WellFormed(C0.cfg, f) THEN "ok"        \* the property says nothing about configurations with no single reading
-       ELSE IF answered THEN UserVerdict(C0.cfg, f, "req", mine, e.outcome)
-       ELSE IF Len(rq) > 0 /\ UserVerdict(C0.cfg, f, "req", rq, e.outcome) # "ok" THEN UserVerdict(C0.cfg, f, "req", rq, e.outcome)
-       ELSE IF Len(rs) > 0 THEN UserVerdict(C0.cfg, f, "res", rs, e.outcome)
+        answered == \E i \in 1..Len(rq) : G!Answers(rq[i])
+    IN IF ~WellFormed(cfg, f) THEN "ok"        \* the property says nothing about configurations with no single reading
+       ELSE IF answered THEN UserVerdict(cfg, f, "req", mine, e.outcome)
+       ELSE IF Len(rq) > 0 /\ UserVerdict(cfg, f, "req", rq, e.outcome) # "ok" THEN UserVerdict(cfg, f, "req", rq, e.outcome)
+       ELSE IF Len(rs) > 0 THEN UserVerdict(cfg, f, "res", rs, e.outcome)
        ELSE "ok"
+
+\* A transaction may end with an error only where the configuration explains it (the executor projects the engine's message on
+\* a class): a Limiter wired on the response side refuses the stream type (accepted by the loader, observation G3); a WriteCache met
+\* on the response walk of an early response finds no response (observation G7).
+LimOnRes == \E i \in 1..Len(C0.cfg.flows) : \E j \in 1..Len(C0.cfg.flows[i].res) :
+               LET c == C0.cfg.flows[i].res[j] IN (c.f.k = "P" /\ c.f.n \in DOMAIN C0.LimQ) \/ (c.t.k = "P" /\ c.t.n \in DOMAIN C0.LimQ)
+ErrorExplained(e) ==
+    \/ e.errclass = "invalid-stream-type" /\ LimOnRes
+    \/ e.errclass = "response-not-found" /\ e.dir = "req" /\ G!AnsweredEarly(e.seq) /\ DOMAIN C0.WCache # {"-"}
 
 \* ---- a request transaction: selection (C03), walk per selected flow (C04), answer (C07)
 \* The user flows that ran = those with a processor execution + those the engine counted as invoked.  A flow whose filter
@@ -89,7 +101,7 @@ ReqJudgement(e) ==
     ELSE IF e.outcome = "ok" /\ ~G!AnsweredEarly(e.seq) /\ \E f \in G!FlowNames : G!FlowV(f, x) = "yes" /\ f \notin ranq
          THEN "flow-did-not-run-although-its-filter-matches"
     ELSE IF \E f \in G!UserFlowsIn(e.seq) : FlowWalk(e, f) # "ok" THEN "walk-does-not-follow-the-graph"
-    ELSE IF \E i, j \in 1..Len(e.seq) : i < j /\ e.seq[i].sid = "" /\ e.seq[i].dir = "req" /\ KindAny(C0.cfg, e.seq[i].key) = "Gen"
+    ELSE IF \E i, j \in 1..Len(e.seq) : i < j /\ G!Answers(e.seq[i])
                                           /\ e.seq[j].sid = "" /\ e.seq[j].dir = "req"
          THEN "request-side-of-another-flow-runs-after-the-answer"
     ELSE IF \E q \in sysran : q \notin DOMAIN C0.QKind \/ G!QuotaV(q, x) = "no" THEN "quota-system-flow-ran-although-the-quota-filter-does-not-match"
@@ -102,9 +114,11 @@ ReqJudgement(e) ==
     ELSE IF e.outcome = "ok" /\ e.status # G!ExpectedStatus(e.seq) THEN "answer-is-not-the-first-early-response"
     ELSE IF e.outcome = "ok" /\ e.acts # G!FlatActs(e.seq) THEN "recorded-actions-are-not-those-of-the-processor-executions"
     ELSE IF e.outcome = "ok" /\ \E i \in 1..Len(e.seq) : ~G!ProcActsOK(e, i) THEN "processor-handed-back-an-action-its-configuration-does-not-explain"
-    ELSE IF e.outcome = "ok" /\ ~G!A!ReqOK(e.acts, e.out) THEN "answer-is-not-the-combination-of-the-actions(C07)"
+    ELSE IF e.outcome = "ok" /\ ~G!Act!ReqOK(e.acts, e.out) THEN "answer-is-not-the-combination-of-the-actions(C07)"
     ELSE IF e.outcome = "ok" /\ ~G!ReqAnswerOK(e) THEN "answer-does-not-carry-what-the-executed-processors-are-configured-to-do"
     ELSE IF ~G!RetryAccepted(e) THEN "retry-not-permitted-by-the-configured-attempts(C17)"
+    ELSE IF ~G!CacheReqOK(e) THEN "cache-answer-not-permitted(X02)"
+    ELSE IF e.outcome = "error" /\ ~ErrorExplained(e) THEN "transaction-failed-with-an-error-the-configuration-does-not-explain"
     ELSE "ok"
 
 \* the line of a request transaction is consumed when its last step is taken (TFinish): the high-water mark of l then always
@@ -113,7 +127,7 @@ TBeginReq ==
     /\ Idle /\ l < TraceLen /\ Ev.ev = "tx" /\ Ev.dir = "req"
     /\ LET v == ReqJudgement(Ev) IN IF v = "ok" THEN TRUE ELSE PrintT(<<"REJECT", l + 1, Ev.id, v>>) /\ FALSE
     /\ cur' = Ev /\ pos' = 1 /\ seen' = {}
-    /\ G!RetryStep(Ev)
+    /\ G!RetryStep(Ev) /\ G!CacheReqStep(Ev)
     /\ UNCHANGED <<now, qstate, l>>
 
 \* ---- one processor execution of the current request transaction
@@ -126,7 +140,7 @@ Again(q) == q \in seen /\ q \in G!Conc
 TSkip ==
     /\ pos > 0 /\ pos <= Len(cur.seq)
     /\ (G!QuotaOf(Step) = "" \/ Again(G!QuotaOf(Step)))
-    /\ pos' = pos + 1 /\ UNCHANGED <<now, qstate, l, cur, seen, rvars>>
+    /\ pos' = pos + 1 /\ UNCHANGED <<now, qstate, l, cur, seen, rvars, cvars>>
 
 TQuota ==
     /\ pos > 0 /\ pos <= Len(cur.seq)
@@ -141,12 +155,12 @@ TQuota ==
                                        IF out = "refuse" THEN "refuse" ELSE IF G!AnsweredEarly(cur.seq) THEN "early" ELSE "admit", "seq")
                        /\ UNCHANGED <<lo, hi, charged, admitted, fwlast>>
           /\ seen' = seen \cup {q}
-    /\ pos' = pos + 1 /\ UNCHANGED <<l, cur, rvars>>
+    /\ pos' = pos + 1 /\ UNCHANGED <<l, cur, rvars, cvars>>
 
 TFinish ==
     /\ pos > 0 /\ pos > Len(cur.seq)
     /\ pos' = 0 /\ cur' = NoTx /\ seen' = {} /\ l' = l + 1
-    /\ UNCHANGED <<now, qstate, rvars>>
+    /\ UNCHANGED <<now, qstate, rvars, cvars>>
 
 \* ---- responses and proxy errors give the slots back
 \* the flows whose filter accepts the response and that have something to run on the response side must run; a flow whose
@@ -169,10 +183,11 @@ ResJudgement(e) ==
     ELSE IF \E q \in decran : q \notin G!Conc \/ G!QuotaV(q, x) = "no" THEN "quota-releasing-system-flow-ran-although-the-quota-filter-does-not-match"
     ELSE IF e.outcome = "ok" /\ e.acts # G!FlatActs(e.seq) THEN "recorded-actions-are-not-those-of-the-processor-executions"
     ELSE IF e.outcome = "ok" /\ \E i \in 1..Len(e.seq) : ~G!ProcActsOK(e, i) THEN "processor-handed-back-an-action-its-configuration-does-not-explain"
-    ELSE IF e.outcome = "ok" /\ ~G!A!RespOK(e.acts, e.out) THEN "answer-is-not-the-combination-of-the-actions(C07)"
+    ELSE IF e.outcome = "ok" /\ ~G!Act!RespOK(e.acts, e.out) THEN "answer-is-not-the-combination-of-the-actions(C07)"
     ELSE IF e.outcome = "ok" /\ ~G!ResAnswerOK(e) THEN "answer-does-not-carry-what-the-executed-processors-are-configured-to-do"
     ELSE IF ~G!StatusFilterOK(e) THEN "status-filter-processor-answer-contradicts-its-range"
     ELSE IF ~G!RetryAccepted(e) THEN "retry-not-permitted-by-the-configured-attempts(C17)"
+    ELSE IF e.outcome = "error" /\ ~ErrorExplained(e) THEN "transaction-failed-with-an-error-the-configuration-does-not-explain"
     ELSE "ok"
 
 TRes ==
@@ -182,14 +197,14 @@ TRes ==
     \* the QUOTA's filter.  When it did not run - the response walk ended with an error before it (observation G3), or a Limiter took
     \* the slot from a flow outside the quota's filter (observation G2) - the slot comes back by expiry only, which C02's statement
     \* permits ("at the latest when its expiry time passes"): for such a response both outcomes are accepted.
-    /\ LET held == {q \in G!Conc : Ev.id \in inflight[q]}
+    /\ LET holds == {q \in G!Conc : Ev.id \in inflight[q]}
            decq == {Ev.seq[i].q : i \in {j \in 1..Len(Ev.seq) : Ev.seq[j].sys = "dec"}}
        IN \/ G!CQ!Response(Ev.id)
-          \/ ((Ev.outcome = "error" \/ ~(held \subseteq decq)) /\ UNCHANGED <<now, inflight, deadline, cqlast>>)
-    /\ G!RetryStep(Ev)
+          \/ ((Ev.outcome = "error" \/ ~(holds \subseteq decq)) /\ UNCHANGED <<now, inflight, deadline, cqlast>>)
+    /\ G!RetryStep(Ev) /\ G!CacheResStep(Ev)
     /\ UNCHANGED <<lo, hi, charged, admitted, fwlast, cur, pos, seen>>
 
-TErr == Consume("err") /\ G!CQ!ProxyError(Ev.id) /\ UNCHANGED <<lo, hi, charged, admitted, fwlast, cur, pos, seen, rvars>>
+TErr == Consume("err") /\ G!CQ!ProxyError(Ev.id) /\ UNCHANGED <<lo, hi, charged, admitted, fwlast, cur, pos, seen, rvars, cvars>>
 
 TNext == TReset \/ TAdv \/ TBeginReq \/ TSkip \/ TQuota \/ TFinish \/ TRes \/ TErr
 
@@ -198,6 +213,7 @@ TraceSpec == TInit /\ [][TNext]_gvars
 FwBound == G!FW!Bound
 CqBound == G!CQ!Bounded
 RetryBound == G!RT!Bounded
+CacheBound == G!XC!SizeBound
 HWM == Mark(l)
 Post == Report
 ================================================================================
